@@ -1401,7 +1401,15 @@ class Process(StateMachine, persistence.Savable, metaclass=ProcessStateMachineMe
 
         while self.paused and self._paused is not None:
             # (a loop because the process may have been played and paused again before this coroutine woke up)
-            await self._paused
+            try:
+                await self._paused
+            except asyncio.CancelledError:
+                # The task stepping the process was cancelled (e.g. by a timeout around ``step_until_terminated``) and asyncio
+                # cancelled the future it was blocked on along with it: put a new one in its place, so that the (still paused)
+                # process can be stepped again
+                if self._paused is not None and self._paused.cancelled():
+                    self._paused = persistence.SavableFuture(loop=self._loop)
+                raise
             if self.has_terminated():
                 # Killed (or failed) while paused
                 return
